@@ -140,16 +140,17 @@ func (s *Solver) Check(conj []*Term, wantModel []*Term) (string, map[string]uint
 	var model map[string]uint64
 	if res == "sat" && len(wantModel) > 0 {
 		model = map[string]uint64{}
+		var names []string
 		for _, v := range wantModel {
 			if v.IsConst() {
 				continue
 			}
-			nm := s.pr.name(v)
-			s.send(fmt.Sprintf("(get-value (%s))\n", nm))
-			l, _ := s.out.ReadString('\n')
-			if val, ok := parseValue(l); ok {
-				model[nm] = val
-			}
+			names = append(names, s.pr.name(v))
+		}
+		if len(names) > 0 {
+			s.send("(get-value (" + strings.Join(names, " ") + "))\n")
+			txt := s.readSexp()
+			parseModel(txt, model)
 		}
 	}
 	if s.cmd == gen {
@@ -195,6 +196,81 @@ func (s *Solver) readAnswer() string {
 			s.restart()
 			return "unknown"
 		}
+	}
+}
+
+// readSexp reads one balanced s-expression (possibly spanning several lines) from the solver.
+func (s *Solver) readSexp() string {
+	var sb strings.Builder
+	depth, started := 0, false
+	for {
+		line, err := s.out.ReadString('\n')
+		if err != nil {
+			return sb.String()
+		}
+		sb.WriteString(line)
+		for _, ch := range line {
+			if ch == '(' {
+				depth++
+				started = true
+			} else if ch == ')' {
+				depth--
+			}
+		}
+		if started && depth <= 0 {
+			return sb.String()
+		}
+		if !started && strings.TrimSpace(line) != "" {
+			return sb.String()
+		}
+	}
+}
+
+// parseModel parses "((a #x01) (b true) (c (_ bv5 8)))" into m.
+func parseModel(txt string, m map[string]uint64) {
+	txt = strings.TrimSpace(txt)
+	if strings.HasPrefix(txt, "(error") {
+		return
+	}
+	i := 0
+	n := len(txt)
+	// skip the outer paren
+	for i < n && txt[i] != '(' {
+		i++
+	}
+	i++
+	for i < n {
+		for i < n && txt[i] != '(' {
+			if txt[i] == ')' {
+				return
+			}
+			i++
+		}
+		if i >= n {
+			return
+		}
+		// find matching close of this pair
+		depth, j := 0, i
+		for j < n {
+			if txt[j] == '(' {
+				depth++
+			} else if txt[j] == ')' {
+				depth--
+				if depth == 0 {
+					break
+				}
+			}
+			j++
+		}
+		pair := strings.TrimSpace(txt[i+1 : j])
+		k := strings.IndexAny(pair, " \t\n")
+		if k > 0 {
+			name := pair[:k]
+			if v, ok := parseValue("((" + name + " " + strings.TrimSpace(pair[k+1:]) + "))"); ok {
+				m[name] = v
+			}
+		}
+		i = j + 1
 	}
 }
 
